@@ -1001,10 +1001,17 @@ func oracleC15(rep *report, r *rng) {
 // ---------- C16 ----------
 func oracleC16(rep *report, r *rng) {
 	rep.Rule = "every type x values: after Decode the source backing array is overwritten (scribble, Reset + refill with another frame) and the message must not change; after Encode the message's lists, nested parts and text are mutated and the bytes written must not change"
-	n := rounds(rep, 3, 20)
+	n := rounds(rep, 4, 20)
 	forTypesAndEntries(r, func(t *genType, mk func(genOpts) any, tag string) {
 		for k := 0; k < n && !rep.failed(); k++ {
+			if k == 2 {
+				forceListLen = 64 + r.intn(40) // bulk paths (one read for a whole list) start at thresholds like these
+			}
+			if k == 3 {
+				forceListLen = 300 + r.intn(300)
+			}
 			m := mk(genOpts{canonical: true, bigLists: k == 1})
+			forceListLen = 0
 			st, enc := encodeFresh(m)
 			if st != "ok" {
 				continue
